@@ -127,6 +127,9 @@ func (k Keeper) AllocateTokensToStakers(ctx sdk.Context, operatorAddress sdk.Acc
 			logger.Debug("avs address lists not found; skipping")
 			continue
 		}
+		// the USD value of a staker for an AVS already covers all the assets of that AVS, so a
+		// staker is counted once per AVS, however many of the AVS's assets it has delegated.
+		countedForAVS := make(map[string]struct{})
 		for assetID := range avsAssets {
 			stakerList, err := k.StakingKeeper.GetStakersByOperator(ctx, operatorAddress.String(), assetID)
 			if err != nil {
@@ -134,11 +137,21 @@ func (k Keeper) AllocateTokensToStakers(ctx sdk.Context, operatorAddress sdk.Acc
 				continue
 			}
 			for _, staker := range stakerList.Stakers {
+				if _, counted := countedForAVS[staker]; counted {
+					continue
+				}
+				countedForAVS[staker] = struct{}{}
 				if curStakerPower, err := k.StakingKeeper.CalculateUSDValueForStaker(ctx, staker, avsAddress, operatorAddress.Bytes()); err != nil {
 					logger.Error("curStakerPower error", "error", err)
 				} else {
-					stakersPowerMap[staker] = curStakerPower
-					globalStakerAddressList = append(globalStakerAddressList, staker)
+					// a staker is listed once, with the sum of its values over the AVSs; the total
+					// is the sum of the listed powers, so the fractions never add up to more than 1.
+					prevPower, listed := stakersPowerMap[staker]
+					if !listed {
+						prevPower = math.LegacyNewDec(0)
+						globalStakerAddressList = append(globalStakerAddressList, staker)
+					}
+					stakersPowerMap[staker] = prevPower.Add(curStakerPower)
 					curTotalStakersPowers = curTotalStakersPowers.Add(curStakerPower)
 				}
 			}
